@@ -2,3 +2,5 @@ import Rp2.Props.C20
 #print axioms Rp2.C20.sheets_and_chain
 #print axioms Rp2.C20.years_sorted_once
 #print axioms Rp2.C20.sheet_rows_each_once
+#print axioms Rp2.C20.summary_lines
+#print axioms Rp2.C20.sheets_carry_asset_and_year
